@@ -70,6 +70,57 @@ theorem strchr_s_hit_eq (dest dmax : Nat) (ch : Int) (st : St) (hall : AllRd st)
     strchrP_hit hall (chCell ch) scanFuel dest k hf hbefore hat]
   simp [hd, h5]
 
+/-- **what `strchr_s` computes on ANY memory**: exactly the right function for a bound of
+`dmax + 1` characters — the first occurrence among the characters of the string including its
+terminator, at most `dmax + 1` of them.  (The off-by-one of `> dmax` is the ONLY deviation.) -/
+theorem strchr_s_eq (dest dmax : Nat) (ch : Int) (st : St) (hall : AllRd st)
+    (hd : dest ≠ 0) (hpos : 0 < dmax) (hle : dmax ≤ RSIZE_MAX_STR) (hch : ch ≤ 255) :
+    exec (strchr_s dest dmax ch none) st =
+      .ok ((match firstIdx st.data (chCell ch) dest (min (scanLen st.data dest (dmax+1) + 1) (dmax+1)) with
+            | some i => (EOK, dest + i) | none => (ESNOTFND, 0)), st) := by
+  have hfu : RSIZE_MAX_STR + 1 < scanFuel := by decide
+  by_cases hz : scanLen st.data dest (dmax+1) < dmax + 1
+  · -- a terminator among the first dmax+1 cells
+    have e : min (scanLen st.data dest (dmax+1) + 1) (dmax+1) = scanLen st.data dest (dmax+1) + 1 := by omega
+    rw [e]
+    unfold strchr_s qChkS
+    have h1 : ¬ dmax = 0 := by omega
+    have h2 : ¬ dmax > RSIZE_MAX_STR := by omega
+    have h3 : ¬ ch > 255 := by omega
+    simp only [hd, h1, h2, h3, if_false, exec_bind, exec_pure, reduceCtorEq,
+      strchrP_eq hall (chCell ch) scanFuel dest (dmax+1) (by omega) hz]
+    cases hfi : firstIdx st.data (chCell ch) dest (scanLen st.data dest (dmax+1) + 1) with
+    | none => simp
+    | some i =>
+      have := (firstIdx_some _ _ _ _ _ hfi).1
+      have h5 : ¬ dmax < i := by omega
+      simp [hd, h5]
+  · have hL : scanLen st.data dest (dmax+1) = dmax + 1 := by
+      have := scanLen_le st.data dest (dmax+1); omega
+    have e : min (scanLen st.data dest (dmax+1) + 1) (dmax+1) = dmax + 1 := by omega
+    rw [e]
+    have hnz : ∀ j, j < dmax + 1 → st.data (dest + j) ≠ 0 := fun j hj =>
+      scanLen_nonzero st.data dest (dmax+1) j (by omega)
+    cases hfi : firstIdx st.data (chCell ch) dest (dmax+1) with
+    | some k =>
+      obtain ⟨hk, hat, hbef⟩ := firstIdx_some _ _ _ _ _ hfi
+      exact strchr_s_hit_eq dest dmax ch st hall hd hpos hle hch k (by omega)
+        (fun j hj => ⟨hbef j hj, hnz j (by omega)⟩) hat
+    | none =>
+      have hno := firstIdx_none _ _ _ _ hfi
+      obtain ⟨r, hr, hge⟩ := strchrP_far hall (chCell ch) scanFuel dest (dmax+1)
+        (fun j hj => ⟨hno j hj, hnz j hj⟩)
+      unfold strchr_s qChkS
+      have h1 : ¬ dmax = 0 := by omega
+      have h2 : ¬ dmax > RSIZE_MAX_STR := by omega
+      have h3 : ¬ ch > 255 := by omega
+      simp only [hd, h1, h2, h3, if_false, exec_bind, exec_pure, reduceCtorEq, hr]
+      rcases hge with rfl | hge
+      · simp
+      · have h4 : ¬ r = 0 := by omega
+        have h5 : r - dest > dmax := by omega
+        simp [h4, h5]
+
 /-- `dest = "ab…"`, `dmax = 1`, searching `'b'`: there is no `'b'` among the first `dmax` characters,
 yet EOK and `dest + 1` are returned.  Known finding `strchr-off-by-one`. -/
 theorem strchr_s_offbyone_witness :
